@@ -42,7 +42,7 @@ EXPLANATION = ('Abstract interpretation of Zones::insert/remove/closest (and the
                'the free-interval set stays sorted, disjoint, inside its bounds, that removed ranges are never offered again, and that '
                'the collider only reports "resolved" from a position such an interval offered.  The geometric clauses of C17 (octabox '
                'overlap, limit rectangle arithmetic) are run-time single-precision facts and are not decided.')
-FLOORS = {'ZONESET': 2, 'ZONEWRITERS': 5, 'OFFERED': 2, 'RESOLVED': 2, 'LIMITARGS': 3}
+FLOORS = {'ZONESET': 2, 'ZONEWRITERS': 5, 'OFFERED': 2, 'RESOLVED': 3, 'LIMITARGS': 3}
 SKIP_CONFIGS = ()
 
 PX = 'graphite2::Zones::Exclusion::'
@@ -532,6 +532,57 @@ def resolved(run, fx):
         run.held('RESOLVED', 'resolved only from an offered position', fn.loc(clears[0][1]), 'every isCol = false is dominated by %s >= 0 after Zones::closest filled it' % cname)
 
 
+def verdictshift(run, fx):
+    """RESOLVED, second half: the verdict ShiftCollider::resolve hands back (isCol) is about the glyph AT THE SHIFT IT RETURNS.  In
+    Pass::resolveCollisions that shift must be what is stored in the slot's collision record whenever the verdict is then recorded: the
+    only tests allowed between the call of resolve and SlotCollision::setShift(<its result>) are tests of that result alone (the
+    finiteness guard).  A shift that is dropped for any other reason leaves "resolved" standing for a position the glyph is not at."""
+    fn = fx.one('graphite2::Pass::resolveCollisions')
+    rc = calls_in(fn, 'graphite2::ShiftCollider::resolve')
+    inst = 'the recorded verdict belongs to the stored shift'
+    if len(rc) != 1:
+        run.broken('RESOLVED', inst, 'expected one ShiftCollider::resolve call in Pass::resolveCollisions, found %d' % len(rc), fn.where())
+        return
+    # the local that receives the result
+    res = None
+    for _, e in fn.elements():
+        if e['k'] == 'DeclStmt':
+            for d in e['decls']:
+                if d.get('init') is not None and any(x.get('i') == rc[0]['i'] for x in fn.walk(d['init'])):
+                    res = d
+    if res is None:
+        run.broken('RESOLVED', inst, 'the local that receives resolve()\'s result was not found', fn.where())
+        return
+    ss = [e for e in calls_in(fn, 'graphite2::SlotCollision::setShift') if e.get('args') and fn.strip_all_casts(fn.deref(e['args'][0])).get('vid') == res['vid']]
+    if not ss:
+        run.violated('RESOLVED', inst, fn.loc(rc[0]), 'the shift ShiftCollider::resolve returned is never stored with SlotCollision::setShift')
+        return
+    # the result variable must not be re-assigned between the call and the store
+    reass = [e for _, e in fn.elements() if e['k'] in ('BinaryOperator', 'CXXOperatorCallExpr') and (e.get('op') == '=' or (e.get('fq') or '').endswith('operator='))
+             and fn.strip(((e.get('args') if e.get('args') is not None else e.get('c')) or [None])[0] or {'k': ''}).get('vid') == res['vid']]
+    gq = dom.edge_guards(fn, fn.block_of[ss[0]['i']])
+    gs = dom.edge_guards(fn, fn.block_of[rc[0]['i']])
+    key = lambda g: (g[0] if isinstance(g[0], int) else id(g[0]), g[1])
+    have = {key(g) for g in gs}
+    bad = []
+    for g in gq:
+        if key(g) in have:
+            continue
+        node = fn.N(g[0]) if isinstance(g[0], int) else g[0]
+        vids = {x.get('vid') for x in fn.walk(node) if x['k'] == 'DeclRefExpr' and x.get('vid') is not None}
+        members = [x for x in fn.walk(node) if x['k'] == 'MemberExpr' and x.get('dk') == 'Field' and not any(y.get('vid') == res['vid'] for y in fn.walk(x))]
+        calls = [x for x in fn.walk(node) if x['k'] in ('CXXMemberCallExpr',)]
+        if vids - {res['vid']} or members or calls:
+            bad.append(fn.render(node))
+    if reass:
+        run.violated('RESOLVED', inst, fn.loc(reass[0]), 'the local holding resolve()\'s result is overwritten (%s) although the verdict that came with it is recorded' % fn.render(reass[0]))
+    elif bad:
+        run.violated('RESOLVED', inst, fn.loc(ss[0]), 'the shift that ShiftCollider::resolve returned is stored only if %s: when it is not, the "resolved" verdict that came with it is still recorded, for a '
+                     'position the glyph is not moved to' % bad)
+    else:
+        run.held('RESOLVED', inst, fn.loc(ss[0]), 'setShift(%s) under nothing but tests of %s itself' % (res['n'], res['n']))
+
+
 def limitargs(run, fx):
     """LIMITARGS: "keeps the glyph's ACCUMULATED collision offset inside the limit rectangle in force for the glyph".  Both colliders are
     told three things about the glyph being fixed: its limit rectangle, the shift computed so far in this pass, and the offset accumulated
@@ -648,8 +699,22 @@ def kernclamp(run, fx):
                 has_hi = True
             if nm == 'max' and f == want_lo:
                 has_lo = True
+    # ... and the two are NESTED (a two-sided clamp): min(hi, max(x, lo)) or max(lo, min(x, hi)), whichever way the arguments are ordered;
+    # min(x, hi) on one branch and max(x, lo) on another leaves one bound unchecked on each
+    nested = False
+    for e in calls:
+        nm = e['fq'].split('::')[-1]
+        want_self, want_other, other = (want_hi, want_lo, 'max') if nm == 'min' else (want_lo, want_hi, 'min')
+        fa = [form(a) for a in e['args']]
+        for k_ in (0, 1):
+            if fa[k_] == want_self:
+                o = fn.strip_all_casts(fn.deref(e['args'][1 - k_]))
+                if o['k'] == 'CallExpr' and (o.get('fq') or '').split('::')[-1] == other and any(form(a2) == want_other for a2 in (o.get('args') or [])):
+                    nested = True
     if not calls:
         run.broken('LIMITARGS', inst, 'no min/max clamp found in KernCollider::resolve', fn.where())
+    elif has_hi and has_lo and not nested:
+        run.violated('LIMITARGS', inst, fn.where(), 'both bounds appear, but not as one two-sided clamp min(hi, max(x, lo)): on each path one of the two bounds of the limit is not applied')
     elif has_hi and has_lo:
         run.held('LIMITARGS', inst, fn.where(), 'min(.., _limit.tr.x - _offsetPrev.x) and max(.., _limit.bl.x - _offsetPrev.x)')
     else:
@@ -668,7 +733,7 @@ def run(run):
     fx = run.facts('Q0')
     N = 4 if run.tier == 'thorough' and not run.cfg_tag else 3
     for name, f in (('ZONESET', lambda: zoneset(run, fx, N)), ('ZONEWRITERS', lambda: zonewriters(run, fx)),
-                    ('OFFERED', lambda: offered(run, fx, N)), ('RESOLVED', lambda: resolved(run, fx)),
+                    ('OFFERED', lambda: offered(run, fx, N)), ('RESOLVED', lambda: resolved(run, fx)), ('RESOLVED', lambda: verdictshift(run, fx)),
                     ('LIMITARGS', lambda: limitargs(run, fx)), ('LIMITARGS', lambda: kernclamp(run, fx))):
         try:
             f()
